@@ -4,11 +4,13 @@
 // started, scaled parameters, genesis validators with the fixture's BLS keys; a base chain built with real staking
 // transactions gives validator v2 two delegations and two pending withdraw records.  A behaviour is a penalty fraction
 // and a list of blocks, each with new evidence cases.  Every block is run through three paths:
-//   seal : the cases are appended to A's local evidence list, the block is built with EndBlock(isSeal=true) (slashing),
-//          assembled and written -- header.SlashData holds what the builder confirmed;
-//   raw  : the UNFILTERED list is put into header.SlashData and the block is run through StateProcessor.Process
-//          (replaySlashing) on B's state at the parent -- what a validator does with an arbitrary proposer's slash data;
-//   imp  : the block A built is imported into B with InsertChain (full validation).
+//
+//	seal : the cases are appended to A's local evidence list, the block is built with EndBlock(isSeal=true) (slashing),
+//	       assembled and written -- header.SlashData holds what the builder confirmed;
+//	raw  : the UNFILTERED list is put into header.SlashData and the block is run through StateProcessor.Process
+//	       (replaySlashing) on B's state at the parent -- what a validator does with an arbitrary proposer's slash data;
+//	imp  : the block A built is imported into B with InsertChain (full validation).
+//
 // The projection (validator records, withdraw queue, penalty account) is recorded before and after each path.
 package slash
 
@@ -183,12 +185,21 @@ func payload(h common.Hash, round uint64, ri uint32) []byte {
 	return append(h.Bytes(), append(new(big.Int).SetUint64(round).Bytes(), buf...)...)
 }
 
-func (w *world) sign(k *fixture.Key, tag string, h common.Hash, round uint64, ri uint32) []byte {
+// kindBound (option kindbound=1) is used only to try out the proposed repair of the C05 finding: votes are then signed over
+// hash || round || index || kind, as a repaired voter would do.  Default: what consensus/ucon/voter.go signVote signs today.
+var kindBound bool
+
+func (w *world) sign(k *fixture.Key, tag string, h common.Hash, round uint64, ri uint32, kind uint8) []byte {
 	id := fmt.Sprintf("%s/%x/%d/%d", tag, h, round, ri)
+	pl := payload(h, round, ri)
+	if kindBound {
+		id += fmt.Sprint("/", kind)
+		pl = append(pl, kind)
+	}
 	if s, ok := w.sigs[id]; ok {
 		return s
 	}
-	s := k.BlsSk.Sign(payload(h, round, ri)).Compress().Bytes()
+	s := k.BlsSk.Sign(pl).Compress().Bytes()
 	w.sigs[id] = s
 	return s
 }
@@ -236,16 +247,16 @@ func (w *world) evidence(c *Case, parent0 uint64, cur *state.Validators, bc *cor
 		switch p.Src {
 		case "prevote", "precommit", "nextindex", "certificate":
 			// what the signer's voter produced for a vote of this kind: the kind is not part of the signed payload
-			sig = w.sign(key, fmt.Sprint("v", c.Signer), h, c.Round, ri)
+			sig = w.sign(key, fmt.Sprint("v", c.Signer), h, c.Round, ri, kindNo[p.Src])
 		case "forged":
-			sig = w.sign(key, fmt.Sprint("v", c.Signer), hashes["C"], c.Round, ri)
+			sig = w.sign(key, fmt.Sprint("v", c.Signer), hashes["C"], c.Round, ri, kind)
 		case "otherindex":
 			// the signer's (legitimate) vote for h at the next index of the same round
-			sig = w.sign(key, fmt.Sprint("v", c.Signer), h, c.Round, ri+1)
+			sig = w.sign(key, fmt.Sprint("v", c.Signer), h, c.Round, ri+1, kind)
 		case "otherround":
-			sig = w.sign(key, fmt.Sprint("v", c.Signer), h, c.Round+1, ri)
+			sig = w.sign(key, fmt.Sprint("v", c.Signer), h, c.Round+1, ri, kind)
 		case "otherkey":
-			sig = w.sign(w.stranger, "stranger", h, c.Round, ri)
+			sig = w.sign(w.stranger, "stranger", h, c.Round, ri, kind)
 		case "garbage":
 			sig = make([]byte, 48)
 			for i := range sig {
@@ -448,6 +459,7 @@ func run(env *drive.Env) error {
 		return err
 	}
 	// shard=i/n: this process executes the behaviours whose index is i modulo n (the orchestrator merges the traces)
+	kindBound = env.Opt("kindbound", "") == "1"
 	si, sn := 0, 1
 	fmt.Sscanf(env.Opt("shard", "0/1"), "%d/%d", &si, &sn)
 	if sn < 1 {
